@@ -407,7 +407,7 @@ func (x *Exec) modelDecode(fr *Frame, st *State, args []Val, site string) Val {
 	byteT := types.Typ[types.Uint8]
 	alive := c.True()
 	for k := 0; k < n; k++ {
-		ov := x.loadElem(st, anyT, outs.Arr, c.Add(outs.Off, c.Int(int64(k)))).(VIface)
+		ov := x.loadElem(st, anyT, outs.Arr, x.slot(outs.Off, c.Int(int64(k)))).(VIface)
 		p, isPtr := x.unboxPtr(ov.Val)
 		if !isPtr {
 			panic(unsupported("util.Decode output is not a local pointer"))
